@@ -187,7 +187,7 @@ func (n UnixFSHAMTShard) MapIterator() ipld.MapIterator {
 		maxPadLen:  maxPadLen,
 		nd:         n,
 	}
-	st := stringTransformer{maxPadLen: maxPadLen}
+	st := stringTransformer{itr: listItr}
 	return iter.NewUnixFSDirMapIterator(listItr, st.transformNameNode)
 }
 
@@ -197,6 +197,8 @@ type _UnixFSShardedDir__ListItr struct {
 	nd         UnixFSHAMTShard
 	maxPadLen  int
 	total      int64
+	// prefix length of the shard that held the link most recently returned
+	lastPadLen int
 }
 
 func (itr *_UnixFSShardedDir__ListItr) Next() (int64, dagpb.PBLink, error) {
@@ -223,6 +225,7 @@ func (itr *_UnixFSShardedDir__ListItr) next() (dagpb.PBLink, error) {
 			return nil, err
 		}
 		if isValue {
+			itr.lastPadLen = itr.maxPadLen
 			return next, nil
 		}
 		child, err := itr.nd.loadChild(next)
@@ -236,6 +239,7 @@ func (itr *_UnixFSShardedDir__ListItr) next() (dagpb.PBLink, error) {
 		}
 	}
 	_, next, err := itr.childIter.Next()
+	itr.lastPadLen = itr.childIter.lastPadLen
 	if itr.childIter.Done() {
 		// do this even on error to make sure we don't overrun a shard where the
 		// end is missing and the user is ignoring NotFound errors
@@ -361,7 +365,7 @@ func (n UnixFSHAMTShard) Iterator() *iter.UnixFSDir__Itr {
 		maxPadLen:  maxPadLen,
 		nd:         n,
 	}
-	st := stringTransformer{maxPadLen: maxPadLen}
+	st := stringTransformer{itr: listItr}
 	return iter.NewUnixFSDirIterator(listItr, st.transformNameNode)
 }
 
@@ -396,13 +400,15 @@ func (n UnixFSHAMTShard) hasChild(childIndex int) bool {
 	return n.bitfield.Bit(childIndex)
 }
 
+// stringTransformer strips the bucket prefix from a link name. The prefix
+// length is that of the shard holding the link, which need not be the root's.
 type stringTransformer struct {
-	maxPadLen int
+	itr *_UnixFSShardedDir__ListItr
 }
 
 func (s stringTransformer) transformNameNode(nd dagpb.String) dagpb.String {
 	nb := dagpb.Type.String.NewBuilder()
-	err := nb.AssignString(nd.String()[s.maxPadLen:])
+	err := nb.AssignString(nd.String()[s.itr.lastPadLen:])
 	if err != nil {
 		return nil
 	}
